@@ -3221,6 +3221,16 @@ struct const_subarray<T, 1, ElementPtr, Layout>  // NOLINT(fuchsia-multiple-inhe
 	friend constexpr auto operator<=(const_subarray const& self, const_subarray const& other) -> bool { return lexicographical_compare_(self, other) || self == other; }
 	friend constexpr auto operator>=(const_subarray const& self, const_subarray const& other) -> bool { return lexicographical_compare_(other, self) || self == other; }  // NOLINT(readability-suspicious-call-argument)
 
+	// ordering against a one-dimensional view of another pointer type or constness (e.g. a slice of a const array), as == and != above
+	template<class TT, typename EEPP, class LL>
+	friend constexpr auto operator<(const_subarray const& self, const_subarray<TT, 1, EEPP, LL> const& other) -> bool { return lexicographical_compare_(self, other); }
+	template<class TT, typename EEPP, class LL>
+	friend constexpr auto operator>(const_subarray const& self, const_subarray<TT, 1, EEPP, LL> const& other) -> bool { return lexicographical_compare_(other, self); }  // NOLINT(readability-suspicious-call-argument)
+	template<class TT, typename EEPP, class LL>
+	friend constexpr auto operator<=(const_subarray const& self, const_subarray<TT, 1, EEPP, LL> const& other) -> bool { return lexicographical_compare_(self, other) || self == other; }
+	template<class TT, typename EEPP, class LL>
+	friend constexpr auto operator>=(const_subarray const& self, const_subarray<TT, 1, EEPP, LL> const& other) -> bool { return lexicographical_compare_(other, self) || self == other; }  // NOLINT(readability-suspicious-call-argument)
+
  private:
 	template<class A1, class A2>
 	static constexpr auto lexicographical_compare_(A1 const& self, A2 const& other) -> bool {  // NOLINT(readability-suspicious-call-argument)
